@@ -20,3 +20,14 @@ Theorem C02_unread_field_is_invisible : forall ip prog ty b ρ ρ' sp,
   run_prog ip prog ty ρ sp = run_prog ip prog ty ρ' sp.
 Proof. exact sql_ignores_unread_fields. Qed.
 Print Assumptions C02_unread_field_is_invisible.
+
+(* ---- the type grammar: token-level round trip as a theorem.  What ParseType's model accepts spells back to the tokens it was given: the
+   spelling [zspell] of the returned tree equals the consumed token list (">>" read as two ">") up to the printer's two canonicalisations --
+   builtin type names in upper case (token relation at norm = to_upper: same kind, same identifier name up to case), an empty struct as
+   STRUCT<> ("<>" read as "<" ">" on both sides).  With the per-run checked hypothesis of C01_type_roundtrip (lexing SQL() gives zspell of
+   the tree) this is lex(SQL(parse x)) = lex x modulo these canonicalisations ---- *)
+From Verif Require Import Parse.ExprModel Parse.TypeModel Parse.TypeProofs Parse.TypeRespell Parse.TypeRoundTrip Parse.TypeTokens.
+Theorem C02_type_tokens_round_trip : forall ts t r, last_eof ts -> parse_type ts = Ok (t, r) ->
+  exists pre, unfuse ts = (pre ++ unfuse r)%list /\ TypeRespell.tssim to_upper (split_ltgt (zspell t)) (split_ltgt pre).
+Proof. exact parse_type_tokens. Qed.
+Print Assumptions C02_type_tokens_round_trip.
